@@ -186,7 +186,12 @@ func (m *xdsResourceManager) Get(ctx context.Context, rType xdsresource.Resource
 			return nil, fmt.Errorf("[XDS] manager, fetch %s resource[%s] failed, error=%s",
 				xdsresource.ResourceTypeToName[rType], rName, nf.err.Error())
 		}
-		res, _ = m.getFromCache(rType, rName)
+		res, ok = m.getFromCache(rType, rName)
+		if !ok {
+			// removed again (evicted or dropped by a newer update) before this lookup could read it
+			return nil, fmt.Errorf("[XDS] manager, fetch %s resource[%s] failed, the resource was removed",
+				xdsresource.ResourceTypeToName[rType], rName)
+		}
 		return res, nil
 	case <-ctx.Done():
 		verifYield(ctx, 4, rType, rName)
